@@ -16,15 +16,16 @@ PROP = dict(
                 "frequencies, df = number of such documents, field lengths of the right document, N and the length totals; the score map computed through the "
                 "index is, as a list, the map recomputed by scanning the commands (same fold order); with NLP and typo fallback off and a limit that does not cut, "
                 "SearchUniversal returns exactly the eligible commands containing a used content word, every score being the scan score (times the pipeline boost); "
-                "queries of at most cap (default 10) content words are used completely, the first four always; in every state reachable through load / "
-                "load-with-personal / UpdateDatabase / direct growth / search the lazy rebuild leaves index = build(current commands) and a re-ranker built from "
-                "the current commands, so each search equals the search on a freshly built database. The model is tied to the code by regenerated shape facts "
+                "queries of at most cap (default 10) content words are used completely, the first four always; in every state reachable through load / load-with-personal / UpdateDatabase / direct growth / search the lazy rebuild leaves index = build(current commands) and a re-ranker built from "
+                "the current commands, so each search equals the search on a freshly built database; loaded commands have well-formed lower-case caches and, away from U+212A / U+0130, "
+                "their indexed tokens are the tokens of the raw fields (keywords / tags element by element). The model is tied to the code by regenerated shape facts "
                 "(both structures rebuilt at the four sites; 10 / 4 / 2 / minIDF literals) and by correspondence runs: tokenizer (exhaustive over all strings of "
                 "length <= 3 over a 13-byte alphabet), index snapshots, lexical searches, random histories through the real loader and UpdateDatabase."),
     level_note=("Trusted: Lean kernel; axioms propext/Classical.choice/Quot.sound; translator shape assertions (c03:*); harness, hooks VerifIndexSnapshot / "
                 "VerifRerankerCurrent / VerifBM25Params / VerifIDF / VerifTokenize; yaml.v3 round trip for loader runs (checked per case, else the loader is emulated). "
-                "Not proved: the link 'indexed text = lower-cased raw field' for non-ASCII text (false at U+212A / U+0130 by design of strings.ToLower; proved for "
-                "ASCII, exercised by the correspondence elsewhere); same-length replacement of db.Commands behind the engine's back is outside the property's "
+                "The link 'indexed text = lower-cased raw field has the tokens of the raw field' is proved (byte-level, any UTF-8 or invalid input) for every text "
+                "without a non-ASCII code point that lower-cases to ASCII; it is false at exactly U+212A / U+0130 (list re-derived from the toolchain by the foldscan op; "
+                "witness in Props); the RuneInfo table values are the toolchain's (oracle lines). Same-length replacement of db.Commands behind the engine's back is outside the property's "
                 "operations and is exhibited as a non-theorem; float rounding is outside the proofs but the equalities are syntactic; embeddings / result cache are "
                 "C19 / C05."),
     design_ref="DESIGN.md section 6, C03",
@@ -96,17 +97,18 @@ def run(ctx):
                "%d of %d strings over the %d-byte alphabet enumerated" % (enumerated, total, TOK_ALPHABET))
     ctx.cov["exhaustive_streams"] = ["search-c03tok: all %d byte strings of length <= %d over the alphabet a Z 0 _ - . SP C3 A9 FF E2 84 AA" % (total, maxlen)]
     # (b) index snapshots
-    ctx.correspond("c03", 600 if quick else 6000, name="c03-index", args={"stream": "index"}, nontrivial=nt_snapshot, seed_offset=1)
+    ctx.correspond("c03", 600 if quick else 10000, name="c03-index", args={"stream": "index"}, nontrivial=nt_snapshot, seed_offset=1)
     # (c) scan vs index: directed lexical searches, the general search stream, the shipped database
-    ctx.correspond("search", 600 if quick else 8000, name="search-c03scan", args={"stream": "c03scan"}, nontrivial=nt_scan, shrink=False, seed_offset=2)
-    ctx.correspond("search", 400 if quick else 5000, name="search-general", nontrivial=nt_scan, shrink=False, seed_offset=3)
+    ctx.correspond("search", 600 if quick else 15000, name="search-c03scan", args={"stream": "c03scan"}, nontrivial=nt_scan, shrink=False, seed_offset=2)
+    ctx.correspond("search", 400 if quick else 10000, name="search-general", nontrivial=nt_scan, shrink=False, seed_offset=3)
     ship = os.path.join(core.REPO, "assets", "commands.yml")
     if os.path.exists(ship):
-        ctx.correspond("c03", 2 if quick else 10, name="c03-ship", args={"stream": "ship", "path": ship}, nontrivial=nt_ship, model=False, seed_offset=4)
+        ctx.correspond("c03", 2 if quick else 20, name="c03-ship", args={"stream": "ship", "path": ship}, nontrivial=nt_ship, model=False, seed_offset=4)
     else:
         ctx.oblige("input:assets/commands.yml", "correspondence", False, "shipped database not found at " + ship)
     # (d) histories
-    ctx.correspond("c03", 600 if quick else 8000, name="c03-hist", args={"stream": "hist"}, nontrivial=nt_hist, seed_offset=5)
+    ctx.correspond("c03", 600 if quick else 15000, name="c03-hist", args={"stream": "hist"}, nontrivial=nt_hist, seed_offset=5,
+                   shrink=False)  # oracle lines must stay consistent with the history
     d = ctx.cov["distribution"]
     for k in ("search-c03scan.c03-exact-checked", "c03-hist.hsearch", "c03-index.snapshot-nonempty", "c03-index.foldscan"):
         ctx.oblige("coverage:" + k, "coverage", d.get(k, 0) > 0, "%s=%d" % (k, d.get(k, 0)))
